@@ -216,27 +216,33 @@ SORT_KEYS = {'id': lambda i: i[0], 'mod3': lambda i: i[0] % 3, 'neg': lambda i: 
 
 @st.composite
 def sort_case(draw):
-    ks = draw(st.lists(st.integers(-3, 5), min_size=draw(st.sampled_from([0, 1, 4])), max_size=12))
+    ks = draw(st.lists(st.one_of(st.integers(-3, 5), st.integers(-3, 5), st.none()), min_size=draw(st.sampled_from([0, 1, 4])), max_size=12))
     return {'keys': ks, 'key': draw(st.sampled_from(sorted(SORT_KEYS))), 'reverse': draw(st.booleans())}
 
 
 def check_sort(case):
-    items = [(k, n) for n, k in enumerate(case['keys'])]       # (sort key material, original position)
-    kf = SORT_KEYS[case['key']]
+    # (sort key material, original position); a None key makes the ITEM itself None (a legal item), ordered first by the key function
+    items = [None if k is None else (k, n) for n, k in enumerate(case['keys'])]
+    kf0 = SORT_KEYS[case['key']]
+
+    def kf(i):
+        return -99 if i is None else kf0(i)
     r = drive.plain(items, [rs.data.sort(key=kf, reverse=case['reverse'])])
     H.require_clean(r, 'sort', **case)
     got = r.items
-    if sorted(got, key=lambda i: i[1]) != items:
+    if sorted([g for g in got if g is not None], key=lambda i: i[1]) != [i for i in items if i is not None] \
+            or sum(1 for g in got if g is None) != sum(1 for i in items if i is None):
         raise Violation('sort output is not a permutation of its input', input=items, got=got, **case)
     ks = [kf(i) for i in got]
     for a, b in zip(ks, ks[1:]):
         if (a > b) if not case['reverse'] else (a < b):
             raise Violation('sort output keys are not monotone', got=got, keys=ks, **case)
     for a, b in zip(got, got[1:]):
-        if kf(a) == kf(b) and a[1] > b[1]:
+        if a is not None and b is not None and kf(a) == kf(b) and a[1] > b[1]:
             raise Violation('sort is not stable: equal keys are not in source order', got=got, **case)
     dup = len(set(kf(i) for i in items)) < len(items)
-    return {'nontrivial': len(items) >= 3 and dup, 'labels': ['key:' + case['key'], 'reverse' if case['reverse'] else 'ascending']}
+    labels = ['key:' + case['key'], 'reverse' if case['reverse'] else 'ascending'] + (['none-item'] if None in items else [])
+    return {'nontrivial': len(items) >= 3 and dup, 'labels': labels}
 
 
 def subs(tier):
